@@ -37,7 +37,7 @@ LongHdrs == {HdrData, HdrRData, HdrReloc, HdrRReloc}
 DefGran(h) == IF h \in {9, 118, 125} THEN 4                                   \* $09 $76 $7d
               ELSE IF h \in {54, 112, 113, 114, 116, 117, 119, 18, 109, 59, 26, 27, 28, 29} THEN 2
               ELSE 1
-SegMax == 9        \* doc/file-formats.md: segment codes $00..$09
+SegMax == 10       \* doc/file-formats.md lists $00..$09; addrspace.h adds SegEEData = 10, which AS itself writes
 
 (* ---------------------------------------------------------------------- *)
 (* The reader machine                                                      *)
@@ -129,6 +129,7 @@ WellFormed(f) == Len(f) >= 2 /\ At(f, 0) = 137 /\ At(f, 1) = 20 /\ RecordsFrom(f
 \*               string (AS never writes one; pbind/p2bin/p2hex demand >= 1 character): accept or reject,
 \*               but end normally
 \*   "malformed" not well formed                                              -> must be rejected (2 or 3)
+DocumentedToolExit == {0, 1, 2, 3}
 ClassOf(f) == LET v == Verdict(f) IN
               IF v.st = "Reject" THEN "malformed" ELSE IF v.undoc \/ v.odd THEN "tolerated" ELSE "ok"
 Expected(f) == CASE ClassOf(f) = "ok" -> {0} [] ClassOf(f) = "malformed" -> {2, 3} [] OTHER -> {0, 2, 3}
